@@ -1049,6 +1049,14 @@ pub fn build(spec: &BuildSpec, rng: &mut Rng) -> Built {
             (1u64 << 63) | (l2_at[i] * cs),
         );
     }
+    if spec.l1_short {
+        // what lies behind the listed entries inside the table's clusters is
+        // not part of the table: left-overs that look like entries
+        let stale = l2_idx.first().map(|i| l2_at[i] * cs).unwrap_or(l1_at * cs);
+        for i in l1_size..(l1_clusters * cs / 8) {
+            put64(&mut img, (l1_at * cs + i * 8) as usize, (1u64 << 63) | stale);
+        }
+    }
     // reftable
     for (i, at) in rb_at.iter().enumerate() {
         if (i as u64) < n_rb_final {
